@@ -95,6 +95,9 @@ def run_solver(repo, kinds, solve_for=('tidal',), nondimensionalize=False, slice
     for a in (ltypes, lstat, linc, lup): a.extent = nl
     extra_kwargs = dict(extra_kwargs or {})
     fail_layer = extra_kwargs.pop('__fail_layer__', None)
+    fail_solution = extra_kwargs.pop('__fail_solution__', None)      # None: every solution of the failing layer fails; k: only its k-th integration does
+    if extra_kwargs.pop('__zero_bulk_density__', False):
+        r.sym['rho_bulk'] = X.const(0)                              # a planet_bulk_density of exactly 0.0 (every division by it is a division by zero)
     nan_inputs = extra_kwargs.pop('__nan_inputs__', False)       # a scalar input (frequency, bulk density, planet radius) is NaN: every isnan() test on them holds
     state = {'layer': -1, 'solve_count': {}, 'solution': None, 'love': None, 'zgesv': 0, 'solution_obj': None}
     r.state = state
@@ -121,7 +124,8 @@ def run_solver(repo, kinds, solve_for=('tidal',), nondimensionalize=False, slice
                 for c in range(nyd):
                     sol.store[s_ * nyd + c] = X.atom(f'Y[L{layer}][S{kk}][slice {s_}][{c // 2}]{"im" if c % 2 else "re"}')
             so.attrs['solution_y_ptr'] = sol
-            if fail_layer is not None and layer == fail_layer:
+            so.attrs['success'] = True; so.attrs['message'] = ''
+            if fail_layer is not None and layer == fail_layer and (fail_solution is None or kk == fail_solution):
                 so.attrs['success'] = False; so.attrs['message'] = 'integration failed (stub)'
         so.attrs['change_y0_pointer'] = change_y0
         so.attrs['_solve'] = solve; so.attrs['solve'] = solve
@@ -174,9 +178,13 @@ def run_solver(repo, kinds, solve_for=('tidal',), nondimensionalize=False, slice
         if base.endswith('zgesv'):
             def deref(v): return v.frame.vars[v.name] if isinstance(v, Ref) else v
             n = deref(args[0]); A = args[2]; b = args[5]; info = args[7]
-            M = [[X.lift(A.get(i + n * j)) for j in range(n)] for i in range(n)]
-            bv = [X.lift(b.get(i)) for i in range(n)]
-            sol = cramer(M, bv, n)
+            raw = [A.get(i + n * j) for j in range(n) for i in range(n)] + [b.get(i) for i in range(n)]
+            if any(isinstance(v_, Opaque) for v_ in raw):
+                sol = [Opaque('arith')] * n            # a system built from values nobody defined (uninitialised memory, infinities): the solution is as undefined as they are
+            else:
+                M = [[X.lift(A.get(i + n * j)) for j in range(n)] for i in range(n)]
+                bv = [X.lift(b.get(i)) for i in range(n)]
+                sol = cramer(M, bv, n)
             for i in range(n): b.set(i, sol[i])
             # on exit LAPACK has replaced A by its L and U factors: a caller that solves again with the same matrix without refilling it solves another system
             for i in range(n * n):
